@@ -63,8 +63,12 @@ def events (before after : S) : List String :=
         | some r =>
           match c.forward with
           | some f =>
+            -- the forward this completion performed, from the model's ghost log of forwards
             let fwdOk := match r with
-              | .success _ => if accepting after f then "+ok" else "+senderr"
+              | .success _ =>
+                (match after.fwdlog.find? (fun (e : Nat × Nat × Nat × Bool) => e.1 == p) with
+                 | some e => if e.2.1 == f && e.2.2.2 then "+ok" else "+senderr"
+                 | none => "+no-forward")
               | _ => ""
             some s!"fdone {p}={match r with | .success _ => "success" | o => showRes o}{fwdOk}"
           | none => some s!"done {p}={showRes r}"
@@ -261,7 +265,12 @@ def step (ds : DS) (op impl : String) : DS × StepOut :=
   let died (m m' : S) (o : OS) : OS :=
     (List.range m'.actors.length).foldl (fun o a =>
       match m.actors[a]?, m'.actors[a]? with
-      | some x, some x' => if x.alive && !x'.alive then gracefulHolds o a else o
+      | some x, some x' =>
+        -- a forward owed to an actor that stops is no longer owed
+        if x.alive && !x'.alive then
+          let o := gracefulHolds o a
+          { o with expectFwd := o.expectFwd.filter (fun fv => fv.1 != a) }
+        else o
       | _, _ => o) o
   let finish (m' : S) (pre : String) (o' : OS) (nt : Bool) (extraBad : List String := []) : DS × StepOut :=
     let model := fmt pre (events ds.m m')
@@ -361,6 +370,11 @@ def step (ds : DS) (op impl : String) : DS × StepOut :=
             else (o', ["c09.forward-duplicated-or-unannounced"])
           | none => (o', [])
         | _ => (o', [])
+      -- an announced (`+ok`) forward / accepted cast must reach the target's handler: an actor that
+      -- is alive, owed a message and reports an empty mailbox has lost it
+      let aliveM := match ds.m.actors[a]? with | some x => x.alive | none => false
+      let fbad := fbad ++ (if ipre == "idle" && aliveM && o'.expectFwd.any (fun fv => fv.1 == a)
+        then ["c09.forward-announced-but-not-delivered"] else [])
       finish (Rpc.step ds.m (.handle a act)) (modelHandlePre ds.o ds.m a act) o'' (ipre.startsWith "handled") (fbad ++ timeoutClause ds.o ipre)
     | _, _ => (ds, { model := "bad-op" })
   | ["later", p, "probe"] =>
